@@ -4,7 +4,7 @@ CONSTANTS
   Svcs = {"ts", "spl"}
   Workers = {1, 2}
   MaxRows = 1
-  MaxAttempts = 2
+  MaxAttempts = 1
   MaxQueue = 1
   Sibling <- SibLogs
 INVARIANTS TypeOK AckImpliesInserted PromiseOkImpliesInserted ExhaustedImpliesError BatchMatchesResults PortionMatchesResults NoRowTwice PendingIsQueued
